@@ -1336,3 +1336,25 @@ Proof.
   destruct (ws_arrivals_spec c Hfix Hdb arr ws_init s1 e1 (ws_init_qinv c) W Hz H1) as (R & _).
   rewrite Hrun in R. inversion R as [[Hm He]]. cbn [fst snd]. split; congruence.
 Qed.
+
+(* ------------------------------------------------------------------ what reaches coap_dispatch *)
+From LibcoapV Require Import Wire.OptCodec Wire.Pdu Wire.PduProofs.
+
+(* coap_read_session hands a returned frame to coap_pdu_parse when it has more than 2 bytes *)
+Inductive ws_obs := WDeliver (m : msg) | WIgnored (p : bytes) | WOther (e : ws_ev).
+Definition ws_observe_ev (e : ws_ev) : ws_obs :=
+  match e with
+  | WMsg p => if 2 <? len p then match parse WS p with Some m => WDeliver m | None => WIgnored p end
+              else WIgnored p
+  | _ => WOther e
+  end.
+Definition ws_observe (evs : list ws_ev) : list ws_obs := map ws_observe_ev evs.
+
+Theorem ws_observe_messages ms :
+  Forall (fun m => msg_wf m /\ 2 < len (serialize WS m)) ms ->
+  ws_observe (map (fun m => WMsg (serialize WS m)) ms) = map (fun m => WDeliver (norm_fields WS m)) ms.
+Proof.
+  induction 1 as [|m tl [W Hl] _ IH]; [reflexivity|].
+  cbn [map ws_observe ws_observe_ev]. replace (2 <? len (serialize WS m)) with true by lia.
+  rewrite parse_serialize by assumption. f_equal. exact IH.
+Qed.
